@@ -1,12 +1,15 @@
 SPECIFICATION Spec
-CONSTANTS NSwaps = 2
- OrdCand = "acq"
+CONSTANTS StrictSC = TRUE
+ NSwaps = 2
+ OrdCand = "sc"
  OrdCtrl = "sc"
  OrdHslot = "sc"
  OrdEnv = "sc"
  OrdStSwap = "sc"
  OrdPayOk = "rel"
  OrdPayFail = "rlx"
+ OrdPayOkW = "sc"
+ OrdPayFailW = "sc"
  OrdHelpLoad = "sc"
 INVARIANT Safe
 CHECK_DEADLOCK FALSE
